@@ -184,13 +184,26 @@ package martian
 //@   modifies s.mu.rheld
 //@   ensures result == s.conn && sessionIdle(s)
 
+// NewProxy: the default transport imposes no limit of its own on what an origin may answer (C01), and SetDial replaces
+// the plain dialler only - TLS dialling stays with the transport, which verifies the origin (C05).
+//@ func NewProxy
+//@   serves C01
+//@   ensures[default-transport-puts-no-limit-on-the-response-head] result != nil && typeis(result.roundTripper, *http.Transport) && as(result.roundTripper, *http.Transport).MaxResponseHeaderBytes == 0 && as(result.roundTripper, *http.Transport).ResponseHeaderTimeout == 0 && !as(result.roundTripper, *http.Transport).DisableKeepAlives
+//@ func (*Proxy).SetDial
+//@   serves C05
+//@   requires p != nil
+//@   modifies p.dial, http.Transport.Dial
+
 //@ pred proxyReady(p *Proxy) = p != nil && p.reqmod != nil && p.resmod != nil && p.roundTripper != nil && tableIdle()
 
+// Closing reports true exactly when the receive from the closing channel was selected (the channel is never sent on,
+// so that receive is ready only once Close has closed it): the comma-ok flag of that receive is NOT the answer.
 //@ func (*Proxy).Closing
 //@   serves C07
-//@   trusted
+//@   requires p != nil
 //@   modifies closingSeen
-//@   ensures result == closingSeen
+//@   at select 0 after set closingSeen = (sel == 0)
+//@   ensures[closing-is-reported-whenever-the-closed-channel-was-selected] result == closingSeen
 
 // readRequest: every read error closes the connection; a request is returned only together with a nil error.
 // (The request itself comes out of a goroutine through a channel: its well-formedness is assumed.)
@@ -246,7 +259,9 @@ package martian
 //@   ensures[secure-flag-is-sticky; C05] old(ctx.session.secure) ==> ctx.session.secure
 //@   at call 0 of ModifyRequest before assert[authority-filled-from-host-header] req.URL.Host != "" || req.Host == ""
 //@   at call 0 of roundTrip before assert[no-upstream-contact-after-a-hijack; C02] !session.hijacked
-//@   at call 0 of NewResponse before assert[a-synthesized-502-has-no-body-so-its-end-is-known; C03] arg0 == 502 && ref(arg1) == nil
+//@   at call 0 of NewResponse before assert[a-synthesized-502-has-no-body-so-its-end-is-known; C03 C01] arg0 == 502 && ref(arg1) == nil
+//@   at call all of Write before assert[nothing-is-written-to-a-hijacked-connection; C02] !session.hijacked
+//@   at call all of Flush before assert[nothing-is-flushed-to-a-hijacked-connection; C02] !session.hijacked
 //@   at call 0 of ModifyResponse before assert[no-response-modifier-after-a-hijack; C02] !session.hijacked
 //@   at call 0 of ModifyResponse before assert[same-context-on-both-sides] res.Request == req && has(ctxs, req) && ctxs[req] == ctx && nRes == res0
 //@   at call 0 of Write before assert[response-modifier-ran-before-the-write] nRes == res0 + 1 && nWrite == wr0
@@ -351,8 +366,16 @@ package martian
 //@ extern iface net.Conn.SetDeadline
 //@   modifies nArm
 //@   ensures nArm == old(nArm) + 1
+//@ ghost var nSess int
+//@ ghost var nNow int
 //@ func (*Proxy).handleLoop
-//@   serves C01 C02 C07
+//@   serves C01 C02 C04 C05 C07
+//@   modifies nSess, nNow
+//@   at call all of newSession after set nSess = nSess + 1
+//@   at call all of Now after set nNow = nNow + 1
+//@   loop 0 invariant nSess == old(nSess) + 1 && nNow - old(nNow) == nServe - old(nServe)
+//@   at call 0 of handle before assert[one-session-is-created-per-connection; C02 C05] nSess == old(nSess) + 1
+//@   at call 0 of SetDeadline before assert[every-deadline-comes-from-a-fresh-clock-reading; C01 C04] nNow - old(nNow) == nServe - old(nServe) + 1
 //@   noframe
 //@   modifies nArm, nServe
 //@   requires proxyReady(p) && conn != nil && !p.connsMu.held
